@@ -946,6 +946,19 @@ package control
 //@   at call reuseDNSControllerFrom#1 assert calls("currentQtypePrefer") == 1 ==> (qp() == 1 ==> a2.IpVersionPrefer == 4) && (qp() == 28 ==> a2.IpVersionPrefer == 6)
 //@   at call reuseDNSControllerFrom#1 assert calls("currentOptimisticCacheConfig") == 1 || previous.dnsController == nil || previous.dnsController.dnsControllerStore == nil
 
+// C16 (a reload hands the last known state over and leaves every non-empty group one selectable node): every
+// overlapping node takes the state its namesake had in the old generation, and the selection floors are established
+// only after ALL groups have been restored - a node shared by several groups is restored once per group, and a floor
+// that revived it must not be undone by a later group's restore.
+//@ func (*ControlPlane).InheritDialerHealthFrom
+//@   anchorsonly
+//@   nonilcheck
+//@   dyncalls noeffect
+//@   modifies *
+//@   at call ReloadHealthSnapshot#1 assert a0 == oldDialer && oldDialer != nil
+//@   at call RestoreHealthSnapshot#1 assert a0 == d && calls("EnsureReloadSelectionFloor") == 0
+//@   at call CaptureReloadSelectionFallback#1 assert a0 == group && calls("EnsureReloadSelectionFloor") == 0
+
 // C18/C08 (what a new cache entry is made of): the entry built for the controller carries the records and BOTH
 // deadlines it was given, each in its own field - the serving deadline (fixed_domain_ttl applied) and the records'
 // ORIGINAL deadline (which bounds how long the name counts as resolved through dae) - and the domain bitmap of
